@@ -151,7 +151,34 @@ def run(res: Result, tier: str, seed: int):
                 "request read from the same virtual socket; real vs model on the OUT lines; non-trivial = scenarios without "
                 "oracle failure")
     sc = scenarios(rng, 250 if tier == "quick" else 4000, 8 if tier == "quick" else 14)
-    return nodecheck.run(res, sc, KEEP, oracle)
+    fails, div = nodecheck.run(res, sc, KEEP, oracle)
+    fails = fails + racing_readers(res, tier)
+    return fails, div
+
+
+def racing_readers(res: Result, tier: str) -> list:
+    """the reader threads of two connections inside the node at the same time (harness/readrace.py, fresh interpreter): under
+    every sampled single-preemption schedule each peer gets back what it gets when the two messages are handled in turn"""
+    import json
+    import os
+    import subprocess
+    import sys
+    from common import REPO_SRC
+    here = os.path.dirname(os.path.abspath(__file__))
+    env = dict(os.environ, TZ="UTC", DV_REPO_SRC=REPO_SRC, DV_RACE_STEP="3" if tier == "quick" else "1")
+    try:
+        p = subprocess.run([sys.executable, os.path.join(here, "readrace.py")], env=env, capture_output=True, text=True, timeout=1800)
+        doc = json.loads(p.stdout.strip().splitlines()[-1])
+    except Exception as e:  # noqa
+        return [{"what": "two reader threads could not be run inside the node under a line-level schedule "
+                         f"({type(e).__name__}: {str(e)[:200]})", "kind": "race", "line": "readrace.py"}]
+    res.count("racing readers (single-preemption schedules, real threads)", doc["schedules"])
+    res.cases += doc["schedules"]
+    res.extra["racing_reader_schedules"] = doc["schedules"]
+    res.rule += ("; two connections' reader threads inside Node._receive_message at the same time (DWR/CCR, CCR/CCR, DWR/DWR; with "
+                 "and without other requests pending) under every sampled single-preemption schedule, every line of node.py, "
+                 "peer.py, application.py a scheduling point: the transmitted answers are those of handling the two in turn")
+    return doc["fails"]
 
 
 def signature(f: dict):
